@@ -13,7 +13,7 @@ import json, os, shutil, subprocess, sys, time
 ENV = dict(os.environ, GOFLAGS='-mod=mod', GOPROXY='off', GOSUMDB='off', GOTOOLCHAIN='local')
 
 def run(cmd, cwd=None, timeout=3600):
-    p = subprocess.run(cmd, cwd=cwd, env=ENV, shell=isinstance(cmd, str), capture_output=True, text=True, timeout=timeout)
+    p = subprocess.run(cmd, cwd=cwd, env=ENV, shell=isinstance(cmd, str), capture_output=True, text=True, errors='replace', timeout=timeout)
     return p.returncode, p.stdout + p.stderr
 
 def main():
@@ -41,7 +41,7 @@ def main():
         for i in range(1, 21):
             p = 'C%02d' % i
             t0 = time.time()
-            pr = subprocess.run(['/verif/bin/vcheck', '-prop', p, '-tier', 'quick'], cwd='/verif', env=env, capture_output=True, text=True, timeout=3600)
+            pr = subprocess.run(['/verif/bin/vcheck', '-prop', p, '-tier', 'quick'], cwd='/verif', env=env, capture_output=True, text=True, errors='replace', timeout=3600)
             rc, o = pr.returncode, pr.stdout + pr.stderr
             text = o[o.index('VIOLATION-TEXT'):][:900] if 'VIOLATION-TEXT' in o else ''
             rec['ran'].append({'cmd': f'VERIF_REPO=<patched copy> ./bin/vcheck -prop {p} -tier quick', 'exit': rc, 'seconds': round(time.time() - t0, 1), 'excerpt': text or (o[-400:] if rc != 0 else '')})
